@@ -29,3 +29,19 @@ def split(units_regs, n):
     """split a list into n nearly equal parts (dropping empty ones)"""
     k = max(1, (len(units_regs) + n - 1) // n)
     return [units_regs[i:i + k] for i in range(0, len(units_regs), k)]
+
+
+def with_fuzz(plan, prop, header, regs, tier, quick_runs, thorough_runs, max_len=514, chunk=6, tick_limit=None, only=None):
+    """adds a libFuzzer + ASan + UBSan target over `regs` (the same sites) to a plan"""
+    import verif
+    fu = Unit('%s-fuzz' % prop, 'fuzz', header, regs, chunk=chunk, tick_limit=tick_limit)
+    plan['units'].append(fu)
+    prev = plan.get('extra')
+    quick = tier == 'quick'
+
+    def extra(ctx):
+        out = list(prev(ctx)) if prev else []
+        out.append(verif.run_fuzz(fu, ctx, runs=quick_runs if quick else thorough_runs, workers=4 if quick else 16, max_len=max_len, only=only))
+        return out
+    plan['extra'] = extra
+    return plan
